@@ -106,7 +106,7 @@ func checkC19(r *run, c *VLACase) (CaseInfo, error) {
 	a := c.ref()
 	want := vla.Encode(a)
 	// trusted-base self check
-	if back, err := vla.Decode(want); err != nil || !bytes.Equal(vla.Encode(back), want) || len(back.Layers) != len(a.Layers) {
+	if back, err := vla.DecodeWide(want); err != nil || !bytes.Equal(vla.Encode(back), want) || len(back.Layers) != len(a.Layers) {
 		return ci, failf("harness bug: reference VLA codec does not round-trip: %v", err)
 	}
 	masks := a.Masks()
@@ -199,7 +199,24 @@ func checkC19(r *run, c *VLACase) (CaseInfo, error) {
 	if err != nil || n != len(want) {
 		return ci, failf("Unmarshal(%s) = (%d,%v), want (%d,nil)", hx(want), n, err, len(want))
 	}
+	wide := false // a bitrate of 2^56 or more: a nine-byte LEB128 field
+	for _, l := range c.Layers {
+		for _, b := range l.Bitrates {
+			wide = wide || b >= 1<<56
+		}
+	}
+	if wide {
+		ci.class("nine-byte-bitrate-field")
+	}
 	if obs := vlaObs(&fresh); obs != before {
+		if wide {
+			if e := r.finding("F26-vla-nine-byte-bitrate-read-back-wrong", "a bitrate of 2^56 or more is written as a nine-byte LEB128 field that Unmarshal reads back as another value: Unmarshal(Marshal(v)) = %s, want %s (bytes %s)", obs, before, hx(want)); e != nil {
+				return ci, e
+			}
+
+			return ci, nil
+		}
+
 		return ci, failf("Unmarshal(Marshal(v)) = %s, want %s (bytes %s)", obs, before, hx(want))
 	}
 	if c.Prev != nil {
@@ -288,8 +305,8 @@ func genVLADetails(t *rapid.T, streams int, masks [4]uint8) *VLACase {
 				case 1:
 					b = uint64(rapid.Uint32().Draw(t, "rate"))
 					if rapid.IntRange(0, 7).Draw(t, "hugerate") == 0 {
-						// beyond 32 bits: six- to eight-byte LEB128 fields (the field is an int; AV1's leb128 stops at eight bytes, 2^56-1)
-						b = rapid.SampledFrom([]uint64{1 << 32, 1<<35 - 1, 1 << 35, 1 << 42, 1<<49 - 1, 1 << 49, 1 << 55, 1<<56 - 1}).Draw(t, "hugeratev")
+						// beyond 32 bits: six- to nine-byte LEB128 fields (the field is an int: up to 2^63-1)
+						b = rapid.SampledFrom([]uint64{1 << 32, 1<<35 - 1, 1 << 35, 1 << 42, 1<<49 - 1, 1 << 49, 1 << 55, 1<<56 - 1, 1 << 56, 1<<56 + 1, 1<<57 - 1, 1 << 62, 1<<63 - 1}).Draw(t, "hugeratev")
 					}
 				default:
 					b = uint64(rapid.IntRange(0, 20000).Draw(t, "rate"))
@@ -502,7 +519,7 @@ func enumVLAMasks(r *run) bool {
 	return true
 }
 
-const ruleC19 = "valid VLAs: rapid draws 1-4 streams, RID, a slot assignment (equal masks / inactive streams / arbitrary), 1-4 temporal layers with bitrates across all LEB128 size classes (up to 2^32-1, occasionally up to 2^56-1: eight bytes), optional resolution (1-65536)^2 and frame rate (without the flag the fields are zero or hold left-over values, which must not be encoded), one case in 20 a maximal allocation (3-4 streams, nearly all 16 slots, four temporal layers with five-byte bitrates, resolutions: encodings of 256-407 bytes); every 16^n-1 slot assignment (69904 allocations) is also enumerated in both tiers, partitioned across the shards. Oracle (the caller first overwrites what the LEB128 writer returns for each bitrate): Marshal equals an independent encoder of the video-layers-allocation00 layout byte for byte, a second Marshal after the caller overwrote the first result gives the same bytes, Unmarshal consumes everything and yields an equal VLA, also into a receiver that decoded another allocation before (compared with a fresh receiver on every field, resolution fields included); VLAs with exactly one injected defect (boundary values, and wide out-of-range values incl. ones congruent to valid values modulo 2^8/2^16/2^32) must be rejected without panicking; hostile byte strings (random, mutated valid encodings, with earlier decode) must not panic and must report 0<=n<=len, and accepted ones must agree with the reference decoder and decode the same into a used and a fresh receiver. Non-trivial = differing masks, an inactive stream, >4 layers or a bitrate >=128 (valid), every invalid/hostile case; distinct = FNV-64 of the JSON case"
+const ruleC19 = "valid VLAs: rapid draws 1-4 streams, RID, a slot assignment (equal masks / inactive streams / arbitrary), 1-4 temporal layers with bitrates across all LEB128 size classes (up to 2^32-1, occasionally up to 2^63-1: nine bytes), optional resolution (1-65536)^2 and frame rate (without the flag the fields are zero or hold left-over values, which must not be encoded), one case in 20 a maximal allocation (3-4 streams, nearly all 16 slots, four temporal layers with five-byte bitrates, resolutions: encodings of 256-407 bytes); every 16^n-1 slot assignment (69904 allocations) is also enumerated in both tiers, partitioned across the shards. Oracle (the caller first overwrites what the LEB128 writer returns for each bitrate): Marshal equals an independent encoder of the video-layers-allocation00 layout byte for byte, a second Marshal after the caller overwrote the first result gives the same bytes, Unmarshal consumes everything and yields an equal VLA, also into a receiver that decoded another allocation before (compared with a fresh receiver on every field, resolution fields included); VLAs with exactly one injected defect (boundary values, and wide out-of-range values incl. ones congruent to valid values modulo 2^8/2^16/2^32) must be rejected without panicking; hostile byte strings (random, mutated valid encodings, with earlier decode) must not panic and must report 0<=n<=len, and accepted ones must agree with the reference decoder and decode the same into a used and a fresh receiver. Non-trivial = differing masks, an inactive stream, >4 layers or a bitrate >=128 (valid), every invalid/hostile case; distinct = FNV-64 of the JSON case"
 
 func TestC19(t *testing.T) {
 	r := begin(t, "C19", "exploration", ruleC19)
